@@ -142,7 +142,7 @@ def route_worker(rt):
             if decs and rt['path'] not in ('/api/v0/login', '/auth/oauth2/callback', '/sendAuthDocument'):
                 old = z3.BitVec(f'jwt[{jose.tokid(decs[-1]["token"])}].auth_type', 64)
                 allowed = old | z3.BitVecVal(factor, 64)
-                if adm: allowed = allowed      # level of the authenticated identity must itself be backed by the same cookie (a): nothing else may be added
+                if adm and 'bits' in adm[-1]: allowed = allowed | adm[-1]['bits']      # plus the level of the credential this very request authenticated with (a client certificate proven in the TLS handshake by the same user - (a) above - is that user's own proof)
                 decide('the new level adds more than the verified factor to the level of the cookie being re-issued', lvl & ~allowed != 0, f'{rt["path"]}/level')
             elif rt['path'] in ('/api/v0/login', '/auth/oauth2/callback', '/sendAuthDocument'):
                 decide('a fresh session carries more than the factor just verified', lvl != z3.BitVecVal(factor, 64), f'{rt["path"]}/level')
